@@ -699,6 +699,12 @@ Proof.
     intro H; inversion H; discriminate.
 Qed.
 
+Lemma ident_kind_not_eof : forall w r, ident_kind w r <> TEof.
+Proof.
+  intros w r. unfold ident_kind. destruct r as [|d r']; [apply keyword_or_ident_not_eof|].
+  destruct ((128 <=? d) && is_nd_lead (utf8_lead d)); [discriminate | apply keyword_or_ident_not_eof].
+Qed.
+
 Lemma lex_one_not_eof : forall s k w r, lex_one s = Some (Some k, w, r) -> k <> TEof.
 Proof.
   intros s k w r. unfold lex_one. destruct s as [|c s]; [discriminate|].
@@ -711,7 +717,7 @@ Proof.
   | |- context[match punct1 ?a with _ => _ end] =>
       let E := fresh "E" in destruct (punct1 a) eqn:E; [apply punct1_not_eof in E|]
   end;
-  intro H; inversion H; subst; try discriminate; try assumption; try apply keyword_or_ident_not_eof.
+  intro H; inversion H; subst; try discriminate; try assumption; try apply keyword_or_ident_not_eof; try apply ident_kind_not_eof.
 Qed.
 
 Lemma lex_body_from_tokens_ok : forall fuel pos s ts, lex_body_from fuel pos s = Some ts -> tokens_ok ts.
